@@ -378,3 +378,86 @@ func init() {
 		nilPan: "PNilDeref",
 	}
 }
+
+func init() {
+	ws := func(n string) string { return "NewPrims." + n }
+	areas["ctornew"] = &area{
+		name:   "ctornew",
+		module: "CtorNewGen",
+		header: []string{
+			"From Coq Require Import ZArith List Bool String.",
+			"From Shoot Require Import Base.Str Model.Transfer Model.Ctor Bridge.GoPrims Bridge.NewPrims.",
+		},
+		section: []string{
+			"Section Gen.",
+			"(* fields.go newBody / newBodyRec: self-recursive, outside the translated subset *)",
+			"Variable newBody_o : list Ctor.field -> NewPrims.smap -> string.",
+			"",
+		},
+		footer: []string{"End Gen."},
+		world:  "NewPrims.nworld",
+		funcs: []fnSpec{
+			{file: "internal/constructor/fields.go", name: "newParamsList"},
+			{file: "internal/constructor/new.go", name: "Generator.makeNew"},
+		},
+		types: map[string]string{
+			"bool": "bool", "string": "string", "int": "Z", "[]string": "(list string)",
+			"*Field": "Ctor.field", "[]*Field": "(list Ctor.field)",
+			"map[string]string": "NewPrims.smap", "map[int]string": "(list string)",
+			"*Generator": "-", "*Flags": "NewPrims.nflags", "bytes.Buffer": "string",
+		},
+		ptrs:   map[string]bool{},
+		shadow: true,
+		records: map[string]map[string]recField{
+			"*Field": {
+				"name":          {"Ctor.f_name", "", "string"},
+				"isShadowed":    {"Ctor.f_shadowed", "", "bool"},
+				"isEmbeded":     {"Ctor.f_embedded", "", "bool"},
+				"defValue":      {"Ctor.f_def", "", "string"},
+				"isPtr":         {"Ctor.f_ptr", "", "bool"},
+				"qualifiedType": {"Ctor.f_qtype", "", "string"},
+				"isNew":         {"Ctor.f_new", "", "bool"},
+			},
+			"*Flags": {
+				"opt":   {"NewPrims.nf_opt", "", "bool"},
+				"short": {"NewPrims.nf_short", "", "bool"},
+			},
+		},
+		wrecv: map[string]map[string]wfield{
+			"*Generator": {
+				"fields":        {get: "(NewPrims.n_fields w)", typ: "[]*Field"},
+				"hasNew":        {get: "(NewPrims.n_has_new w)", typ: "bool"},
+				"typeParams":    {get: "(NewPrims.n_tparams w)", typ: "[]string"},
+				"typeParamsMap": {get: "(NewPrims.n_tpmap w)", typ: "map[int]string"},
+				"flags":         {get: "(NewPrims.n_flags w)", typ: "*Flags"},
+			},
+		},
+		maps:   map[string]string{"map[string]string": ws("smap_lookup")},
+		mapget: map[string]string{"map[int]string": ws("tpmap_at")},
+		makes:  map[string]string{"map[string]string": ws("smap_make")},
+		lmaps:  map[string]string{"map[string]string": "Ctor.map_put"},
+		lmuts:  map[string]string{"bytes.Buffer.WriteString": ws("buf_write")},
+		zeros:  map[string]string{"bytes.Buffer": "\"\"%string"},
+		wsets: map[string]string{
+			"*Generator.data.TypeParamList":     ws("set_tplist"),
+			"*Generator.data.TypeParamNameList": ws("set_tpnames"),
+			"*Generator.data.NewParamsList":     ws("set_params"),
+			"*Generator.data.NewBody":           ws("set_body"),
+			"*Generator.data.TypeMap":           ws("set_typemap"),
+			"*Generator.data.AllList":           ws("set_all"),
+			"*Generator.data.NewMap":            ws("set_newmap"),
+			"*Generator.data.DefaultList":       ws("set_deflist"),
+			"*Generator.data.DefaultValueMap":   ws("set_defmap"),
+			"*Generator.data.Option":            ws("set_option"),
+			"*Generator.data.Short":             ws("set_short"),
+		},
+		prims: map[string]prim{
+			"transfer.ToCamelCase": {coq: "Transfer.to_camel_case", args: []int{0}, results: []string{"string"}},
+			"strings.Join":         {coq: ws("str_join"), args: []int{0, 1}, results: []string{"string"}},
+			"newBody":              {coq: "newBody_o", args: []int{0, 1}, results: []string{"string"}},
+			"bytes.Buffer.String":  {recv: true, coq: ws("buf_string"), results: []string{"string"}},
+		},
+		nilPan: "PNilDeref",
+	}
+}
+
